@@ -251,6 +251,35 @@ def run_graph(args):
     return stats, violations
 
 
+def run_modules(backend, tier, stats, violations):
+    """Two systems of measure in two modules of ONE crate, with the same type names and the same derivations: every
+    declared operator must exist in BOTH modules (expansion state carried from one declaration to the next would drop
+    the second), and nothing may combine types across the modules."""
+    header = []
+    types, paths, derivs = [], {}, []
+    for mod in ("metric", "nautical"):
+        header.append("pub mod %s {" % mod)
+        header.append("    use quantities::prelude::*;")
+        for name, attrs in (("Pq", ["#[quantity]", '#[ref_unit(Pbase, "pb")]', '#[unit(Pkilo, "pk", 1000)]']),
+                            ("Qq", ["#[quantity]", '#[ref_unit(Qbase, "qb")]', '#[unit(Qmilli, "qm", 0.001)]']),
+                            ("Da", ["#[quantity(Pq * Qq)]", '#[ref_unit(Dabase, "dab")]', '#[unit(Dakilo, "dak", 1000)]']),
+                            ("Db", ["#[quantity(Pq / Qq)]", '#[ref_unit(Dbbase, "dbb")]', '#[unit(Dbkilo, "dbk", 1000)]']),
+                            ("Dc", ["#[quantity(Pq * Pq)]", '#[ref_unit(Dcbase, "dcb")]', '#[unit(Dckilo, "dck", 1000)]'])):
+            header += ["    " + a for a in attrs] + ["    pub struct %s {}" % name]
+            types.append("%s.%s" % (mod, name))
+            paths["%s.%s" % (mod, name)] = "%s::%s" % (mod, name)
+        header.append("}")
+        derivs += [("%s.Da" % mod, "%s.Pq" % mod, "*", "%s.Qq" % mod), ("%s.Db" % mod, "%s.Pq" % mod, "/", "%s.Qq" % mod),
+                   ("%s.Dc" % mod, "%s.Pq" % mod, "*", "%s.Pq" % mod)]
+    types.append(AMT)
+    paths[AMT] = "quantities::AmountT"
+    adm = admissible(types, derivs)
+    progs = build_programs(types, adm, paths)
+    judge_batch("modules", header, progs, paths, backend, tier, stats, violations)
+    stats["module_universe_programs"] = len(progs)
+    return header, progs
+
+
 # ---------------------------------------------------------------------------
 def run(prop, tier, seed, t0):
     model = catalogue.generate(common.BUILD)
@@ -294,12 +323,16 @@ def run(prop, tier, seed, t0):
                             cprogs.append({"lhs": x, "op": op, "rhs": y, "expect": "reject", "result": x})
             judge_batch("cross-crate", [], cprogs, cpaths, backend, tier, st, violations)
             all_progs += [("astro", [], aprogs), ("cross-crate", [], cprogs)]
+        # universe 4: the same names and derivations declared twice, in two modules of one crate
+        mheader, mprogs = run_modules(backend, tier, st, violations)
+        all_progs.append(("modules", mheader, mprogs))
         # derivation graphs
         graphs = all_graphs(tier)
         results = e2.parallel(run_graph, [(gi, g, backend, tier) for gi, g in enumerate(graphs)])
         for gst, gviol in results:
             for k in ("programs", "expected_accept", "expected_reject"):
                 st[k] += gst[k]
+            st["not_required"] = st.get("not_required", 0) + gst.get("not_required", 0)
             st["codes"] |= gst["codes"]
             st["graphs_explored"] = st.get("graphs_explored", 0) + gst.get("graphs_explored", 0)
             st["conflicting_graphs"] = st.get("conflicting_graphs", 0) + gst.get("conflicting_graphs", 0)
@@ -315,7 +348,7 @@ def run(prop, tier, seed, t0):
                 acc = [p for p in progs if p["expect"] == "accept"]
                 src = os.path.join(d, "accepted.rs")
                 with open(src, "w", encoding="utf-8") as f:
-                    f.write("\n".join(["#![allow(unused, non_snake_case)]"] + [p["text"] for p in acc]) + "\n")
+                    f.write("\n".join(["#![allow(unused, non_snake_case)]"] + header + [p["text"] for p in acc]) + "\n")
                 rc, diags = e2.rustc_check(src, backend)
                 if rc != 0 and acc:
                     violations.append(mk_violation("C06/accepted-set-does-not-compile", uname, backend, tier, header, acc[0], "reject", [x for x in diags if x["level"] == "error"][:3]))
@@ -324,7 +357,7 @@ def run(prop, tier, seed, t0):
                     i, p = ip
                     s = os.path.join(d, "r%d.rs" % i)
                     with open(s, "w", encoding="utf-8") as f:
-                        f.write("#![allow(unused, non_snake_case)]\n" + p["text"] + "\n")
+                        f.write("\n".join(["#![allow(unused, non_snake_case)]"] + header + [p["text"]]) + "\n")
                     rc1, dg = e2.rustc_check(s, backend)
                     os.unlink(s)
                     return rc1, dg
@@ -359,7 +392,10 @@ def run(prop, tier, seed, t0):
                 "rejected as a whole with E0119 at a derived definition. Expected verdict and result type come from the "
                 "model's closure of the declared derivations; verdict per program = presence of an error whose primary "
                 "span (outermost expansion) is on the program's line. thorough: every rejected catalogue/astro/cross "
-                "program is also compiled alone, the accepted set as one crate",
+                "program is also compiled alone, the accepted set as one crate. Further program forms: the in-place and "
+                "remainder operators (+= -= *= /= % %=), which must be rejected wherever they are dimensionally meaningless; a "
+                "crate with two modules that declare the same type names and derivations (each module must have all its "
+                "operators, nothing may combine the modules)",
         "states": totals["programs"], "transitions": totals["programs"] + totals.get("single_program_compilations", 0),
         "traces_validated_against_impl": totals["programs"],
         "evaluations": totals["programs"], "distinct_nontrivial": totals["expected_accept"] + totals["expected_reject"],
